@@ -2,7 +2,7 @@
    the epilogue that writes dest/.fsutil-metadata, and the branch of the receive loop that
    decides which entries reach the walker. *)
 From Coq Require Import List Arith NArith Bool Lia ZifyN ZifyNat ZifyBool.
-From FS Require Model.MetaOnly Model.Listing.
+From FS Require Model.MetaOnly Model.Listing Proofs.MetaOnlyP.
 From FS Require Import Sx Model.Path Model.Stat Model.Validator Model.Fs Model.DiskWriterFs Model.RecvMeta.
 From FS Require Import Proofs.Lex Proofs.PathP Proofs.ValidatorP Proofs.FsP Proofs.FsReachP Proofs.FsFrameP
      Proofs.FsSysP Proofs.FsTreeP Proofs.DwP Proofs.RecvP Proofs.FsWfP Proofs.OldListP Proofs.RecvOldP.
@@ -122,4 +122,607 @@ Lemma os_remove_step b f : wf f -> b <= f_next f ->
    (f1 = f /\ exists i, blookup listing_name (ents f D) = Some i /\ is_dir f i = true)).
 Proof. apply os_remove_step_gen; [exact listing_relpath|exact listing_nul]. Qed.
 
+Lemma is_dir_not_link f i : is_dir f i = true -> is_link f i = false.
+Proof.
+  unfold is_dir, is_link, dir_of. destruct (get f i) as [[k m]|]; [|discriminate]. destruct k; try discriminate. reflexivity.
+Qed.
+
+(* open(O_WRONLY|O_CREAT|O_TRUNC) of the name and the write: a fresh file, or no change at all *)
+Lemma open_write_step_gen b f p n content : relpath p [n] -> wf f -> b <= f_next f ->
+  (blookup n (ents f D) = None \/ exists i, blookup n (ents f D) = Some i /\ is_dir f i = true) ->
+  step TAll b f (match sys_open_trunc c f p 420 with
+                 | (f2, RFd i) => fst (fd_pwrite f2 i 0 content)
+                 | (f2, _) => f2
+                 end).
+Proof.
+  intros Hrel W Hb Hcase.
+  assert (HT : forall dd, rwalk f D [] = Some dd -> is_dir f dd = true -> TAll dd n) by (intros; exact I).
+  assert (Hsafe : safe f D ([] ++ [n])).
+  { cbn [app]. apply safe_unfold. destruct Hcase as [E|(i & E & Hd)]; rewrite E; [exact I|].
+    split; [apply is_dir_not_link; exact Hd|exact I]. }
+  destruct (sys_open_creat_step D TAll b c f p [] n W Hb eq_refl Hrel HT 420 Hsafe) as [S P].
+  unfold sys_open_trunc. destruct (sys_open_wronly c f p true 420) as [f1 r] eqn:E. cbn [fst snd] in S, P.
+  destruct r as [| | | | |i]; try exact S.
+  destruct (P eq_refl) as (i' & Ei & [(Ef & dd & nd & Hw & Hbl & Hg & Ht)|(Hi & dd & m & Hw & Hd & Hb0 & Hb1 & Hg)]).
+  - (* an existing file under the name: excluded *)
+    exfalso. inversion Ei; subst i'. cbn [rwalk] in Hw. inversion Hw; subst dd.
+    destruct Hcase as [E0|(i0 & E0 & Hd0)]; rewrite E0 in Hbl; [discriminate|]. inversion Hbl; subst i0.
+    unfold is_dir, dir_of in Hd0. rewrite Hg in Hd0. destruct nd as [k m]. simpl in Ht. destruct k; simpl in Ht; try discriminate.
+  - inversion Ei; subst i'. subst i.
+    pose proof (st_wf _ _ _ _ _ S) as W1. pose proof (st_next _ _ _ _ _ S) as Hn1.
+    assert (Hlt : f_next f < f_next f1).
+    { destruct (N.lt_ge_cases (f_next f) (f_next f1)) as [H|H]; auto.
+      rewrite (wf_alloc D f1 W1 (f_next f) H) in Hg. discriminate. }
+    assert (HneD : f_next f <> D).
+    { pose proof (reach_lt D f D W (reach_refl D f)). lia. }
+    pose proof (fd_truncate_step D TAll b f1 (f_next f) W1 ltac:(lia) Hlt HneD Hb) as S2.
+    pose proof (st_wf _ _ _ _ _ S2) as W2. pose proof (st_next _ _ _ _ _ S2) as Hn2.
+    pose proof (fd_pwrite_step D TAll b (fd_truncate f1 (f_next f)) (f_next f) 0 content W2 ltac:(lia) ltac:(lia) HneD Hb) as S3.
+    apply (step_trans D TAll b f f1 _ S). apply (step_trans D TAll b f1 _ _ S2 S3).
+Qed.
+
+Lemma spend_fs st st1 : spend st = Some st1 -> r_fs st1 = r_fs st.
+Proof. unfold spend. destruct (r_budget st) as [[|k]|]; intros H; inversion H; reflexivity. Qed.
+
+(* the epilogue of a metadata transfer changes one entry of the destination directory *)
+Definition epilogue_at (p : bytes) (idx : nat) (content : bytes) (st : rstate) : rstate :=
+  if recv_succeeds st then
+    match spend st with
+    | None => set_out st Halted
+    | Some st1 =>
+      let st2 := upd st1 (os_remove c (r_fs st1) p) in
+      match spend st2 with
+      | None => set_out st2 Halted
+      | Some st3 =>
+        match sys_open_trunc c (r_fs st3) p 420 with
+        | (f2, RFd i) => upd st3 (fst (fd_pwrite f2 i 0 content))
+        | (f2, _) => set_out (upd st3 f2) (Failed idx)
+        end
+      end
+    end
+  else st.
+
+Lemma epilogue_at_step b p n idx content st : relpath p [n] -> has_nul p = false ->
+  wf (r_fs st) -> b <= f_next (r_fs st) ->
+  step TAll b (r_fs st) (r_fs (epilogue_at p idx content st)).
+Proof.
+  intros Hrel Hnul W Hb. unfold epilogue_at. destruct (recv_succeeds st); [|apply step_refl; auto].
+  destruct (spend st) as [st1|] eqn:E1; [|apply step_refl; auto].
+  pose proof (spend_fs st st1 E1) as Ef1.
+  destruct (os_remove_step_gen b (r_fs st) p n Hrel Hnul W Hb) as [S1 Hcase]. rewrite <- Ef1 in S1, Hcase.
+  set (f1 := os_remove c (r_fs st1) p) in *.
+  set (st2 := upd st1 f1).
+  destruct (spend st2) as [st3|] eqn:E3; [|simpl; rewrite <- Ef1; exact S1].
+  pose proof (spend_fs st2 st3 E3) as Ef3. cbn [r_fs st2 upd] in Ef3.
+  pose proof (st_wf _ _ _ _ _ S1) as W1. pose proof (st_next _ _ _ _ _ S1) as Hn1.
+  assert (Hcase' : blookup n (ents f1 D) = None \/
+                   exists i, blookup n (ents f1 D) = Some i /\ is_dir f1 i = true).
+  { destruct Hcase as [H|(E & i & H1 & H2)]; [left; exact H|right]. rewrite E. exists i. auto. }
+  assert (Hb1 : b <= f_next f1) by (rewrite Ef1 in Hn1; lia).
+  pose proof (open_write_step_gen b f1 p n content Hrel W1 Hb1 Hcase') as S2.
+  rewrite Ef3. apply (step_trans D TAll b (r_fs st) f1); [rewrite <- Ef1; exact S1|].
+  destruct (sys_open_trunc c f1 p 420) as [f2 r]. destruct r; simpl; exact S2.
+Qed.
+
+Lemma epilogue_step b idx content st : wf (r_fs st) -> b <= f_next (r_fs st) ->
+  step TAll b (r_fs st) (r_fs (epilogue c idx content st)).
+Proof.
+  intros W Hb. change (epilogue c idx content st) with (epilogue_at listing_name idx content st).
+  apply (epilogue_at_step b listing_name listing_name idx content st listing_relpath listing_nul W Hb).
+Qed.
+
 End Epilogue.
+
+
+(* ================= which entries reach the walker: the pending-parent stack ================= *)
+(* Model/MetaOnly.v (C19) describes the same stack over the whole announced sequence;
+   Proofs/MetaOnlyP.v has its invariant (each stack element the parent of the one above, closed
+   upwards below the current position).  Added here: the entries handed to the walker so far
+   ([fedS]) all sort before everything still pending, and every accepted directory above the
+   current position has been handed over or is pending — so that the pending chain followed by
+   the entry itself is a sequence the validators would accept after [fedS]. *)
+Section Link.
+Variable sel : stat -> bool.
+Notation cp := MetaOnlyP.cp.
+Notation step_ok := MetaOnlyP.step_ok.
+Notation cvalid := MetaOnlyP.cvalid.
+Notation chain_ok := MetaOnlyP.chain_ok.
+
+Record Link (accA fedS P : list stat) (c : list bytes) : Prop := {
+  lk_inv : MetaOnlyP.Inv sel accA c P;
+  lk_sub : forall q, In q fedS -> In q accA;
+  lk_lt : forall q x, In q fedS -> In x P -> lex (cp q) (cp x) = Lt;
+  lk_anc : forall q, In q accA -> st_is_dir q = true -> is_prefix (cp q) c -> In q fedS \/ In q P;
+  lk_par : forall x, In x accA ->
+           removelast (cp x) = [] \/ exists q, In q accA /\ cp q = removelast (cp x) /\ st_is_dir q = true;
+  lk_pre : forall x, In x P -> is_prefix (cp x) c
+}.
+
+Lemma link_init : Link [] [] [] [].
+Proof.
+  constructor.
+  - apply MetaOnlyP.inv_init.
+  - intros q [].
+  - intros q x [].
+  - intros q [].
+  - intros x [].
+  - intros x [].
+Qed.
+
+Lemma pos_le accA fedS P c s : Link accA fedS P c -> step_ok accA s -> lex c (cp s) <> Gt.
+Proof.
+  intros L (_ & Hlt & _). destruct (MetaOnlyP.inv_c _ _ _ _ (lk_inv _ _ _ _ L)) as [->|(q0 & Hq0 & <-)].
+  - apply MetaOnlyP.lex_nil_l.
+  - rewrite (Hlt q0 Hq0). discriminate.
+Qed.
+
+Lemma anc_prefix accA fedS P c s q : Link accA fedS P c -> step_ok accA s -> In q accA ->
+  is_prefix (cp q) (cp s) -> is_prefix (cp q) c.
+Proof.
+  intros L Hs Hq Hp. apply (MetaOnlyP.prefix_interval (cp q) c (cp s) Hp).
+  - apply (MetaOnlyP.inv_le _ _ _ _ (lk_inv _ _ _ _ L) q Hq).
+  - apply (pos_le accA fedS P c s L Hs).
+Qed.
+
+Lemma prefix_removelast_lt (a b : list bytes) : b <> [] -> is_prefix a (removelast b) -> lex a b = Lt.
+Proof.
+  intros Hb Hp.
+  assert (Hab : is_prefix a b) by (eapply prefix_trans; [exact Hp|apply MetaOnlyP.removelast_prefix]).
+  pose proof (prefix_le a b Hab) as Hle.
+  destruct (lex a b) eqn:E; [|reflexivity|congruence].
+  exfalso. apply lex_eq in E. subst a. apply MetaOnlyP.prefix_len in Hp.
+  pose proof (MetaOnlyP.removelast_len b Hb). lia.
+Qed.
+
+Lemma cvalid_app acc l1 : forall l2 acc', acc' = acc -> cvalid acc l1 -> cvalid (acc ++ l1) l2 -> cvalid acc' (l1 ++ l2).
+Proof.
+  revert acc. induction l1 as [|x l1 IH]; intros acc l2 acc' -> H1 H2.
+  - rewrite app_nil_r in H2. exact H2.
+  - cbn [app MetaOnlyP.cvalid] in *. destruct H1 as [Hx H1]. split; [exact Hx|].
+    apply (IH (acc ++ [x]) l2 _ eq_refl H1). rewrite <- app_assoc. exact H2.
+Qed.
+
+(* a pending chain, bottom first, is acceptable after [base] *)
+Lemma cvalid_rev_chain base : forall stk,
+  chain_ok stk -> (forall x, In x stk -> PathP.okc (cp x) /\ st_is_dir x = true) ->
+  (forall q x, In q base -> In x stk -> lex (cp q) (cp x) = Lt) ->
+  (forall x pre, stk = pre ++ [x] ->
+     removelast (cp x) = [] \/ exists q, In q base /\ cp q = removelast (cp x) /\ st_is_dir q = true) ->
+  cvalid base (rev stk).
+Proof.
+  induction stk as [|x r IH]; intros Hch Hok Hlt Hbot; [exact I|].
+  cbn [rev]. apply (cvalid_app base (rev r) [x] base eq_refl).
+  - apply IH.
+    + destruct Hch as [_ H]. exact H.
+    + intros y Hy. apply Hok. right. exact Hy.
+    + intros q y Hq Hy. apply Hlt; auto. right. exact Hy.
+    + intros y pre E. apply (Hbot y (x :: pre)). rewrite E. reflexivity.
+  - cbn [MetaOnlyP.cvalid]. split; [|exact I].
+    destruct (Hok x (or_introl eq_refl)) as [Hokx _].
+    split; [exact Hokx|]. split.
+    + intros q Hq. apply in_app_or in Hq. destruct Hq as [Hq|Hq]; [apply Hlt; auto; left; reflexivity|].
+      apply in_rev in Hq. apply prefix_removelast_lt; [apply MetaOnlyP.okc_nonempty; exact Hokx|].
+      apply (MetaOnlyP.chain_below_prefix r x Hch q Hq).
+    + destruct r as [|y r'].
+      * destruct (Hbot x [] eq_refl) as [H|(q & Hq & E1 & E2)]; [left; exact H|right].
+        exists q. split; [apply in_or_app; left; exact Hq|auto].
+      * right. exists y. destruct Hch as [Hy _]. split; [apply in_or_app; right; apply in_rev; rewrite rev_involutive; left; reflexivity|].
+        split; [exact Hy|]. apply (Hok y). right. left. reflexivity.
+Qed.
+
+Section Step.
+Variables (accA fedS P : list stat) (c : list bytes) (s : stat).
+Hypothesis L : Link accA fedS P c.
+Hypothesis Hs : step_ok accA s.
+Let stk1 := MetaOnly.mpop (dir (st_path s)) P.
+
+Lemma lk_par_step : forall x, In x (accA ++ [s]) ->
+  removelast (cp x) = [] \/ exists q, In q (accA ++ [s]) /\ cp q = removelast (cp x) /\ st_is_dir q = true.
+Proof.
+  intros x Hx. apply in_app_or in Hx. destruct Hx as [Hx|[<-|[]]].
+  - destruct (lk_par _ _ _ _ L x Hx) as [H|(q & Hq & H)]; [left; exact H|right]. exists q. split; [apply in_or_app; left; exact Hq|exact H].
+  - destruct Hs as (_ & _ & [H|(q & Hq & H)]); [left; exact H|right]. exists q. split; [apply in_or_app; left; exact Hq|exact H].
+Qed.
+
+(* an accepted directory above s that is still pending stays on the stack *)
+Lemma pending_anc q : In q accA -> st_is_dir q = true -> is_prefix (cp q) (cp s) -> In q fedS \/ In q stk1.
+Proof.
+  intros Hq Hd Hp.
+  destruct (MetaOnlyP.step_facts sel accA c P s (lk_inv _ _ _ _ L) Hs) as (popped & Hsplit & _ & _ & S2).
+  destruct (lk_anc _ _ _ _ L q Hq Hd (anc_prefix accA fedS P c s q L Hs Hq Hp)) as [H|H]; [left; exact H|right].
+  fold stk1 in Hsplit. rewrite Hsplit in H. apply in_app_or in H. destruct H as [H|H]; [|exact H].
+  exfalso. exact (S2 q H Hp).
+Qed.
+
+Lemma link_meta : sel s = false -> Link (accA ++ [s]) fedS (if st_is_dir s then s :: stk1 else stk1) (cp s).
+Proof.
+  intros Hsel.
+  destruct (MetaOnlyP.step_facts sel accA c P s (lk_inv _ _ _ _ L) Hs) as (popped & Hsplit & S1 & _ & S2).
+  fold stk1 in Hsplit, S1.
+  assert (Hin1 : forall x, In x stk1 -> In x P) by (intros x Hx; rewrite Hsplit; apply in_or_app; right; exact Hx).
+  pose proof Hs as (Hok & Hlt & Hpar).
+  constructor.
+  - apply (MetaOnlyP.inv_step sel accA c P s _ (lk_inv _ _ _ _ L) Hs). fold stk1.
+    destruct (st_is_dir s) eqn:Ed; [right; right; auto|right; left; auto].
+  - intros q Hq. apply in_or_app. left. apply (lk_sub _ _ _ _ L q Hq).
+  - intros q x Hq Hx.
+    assert (Hx' : x = s \/ In x stk1) by (destruct (st_is_dir s); [destruct Hx as [<-|Hx]; auto|auto]).
+    destruct Hx' as [->|Hx']; [apply Hlt; apply (lk_sub _ _ _ _ L q Hq)|apply (lk_lt _ _ _ _ L q x Hq (Hin1 x Hx'))].
+  - intros q Hq Hd Hp. apply in_app_or in Hq. destruct Hq as [Hq|[<-|[]]].
+    + destruct (pending_anc q Hq Hd Hp) as [H|H]; [left; exact H|right]. destruct (st_is_dir s); [right; exact H|exact H].
+    + right. rewrite Hd. left. reflexivity.
+  - exact lk_par_step.
+  - intros x Hx.
+    assert (Hx' : x = s \/ In x stk1) by (destruct (st_is_dir s); [destruct Hx as [<-|Hx]; auto|auto]).
+    destruct Hx' as [->|Hx']; [apply MetaOnlyP.prefix_refl|]. destruct (S1 x Hx') as (y & _ & E). exists y. exact E.
+Qed.
+
+Lemma link_fwd :
+  Link (accA ++ [s]) (fedS ++ rev stk1 ++ [s]) [] (cp s)
+  /\ cvalid fedS (rev stk1 ++ [s])
+  /\ (forall x, In x stk1 -> st_is_dir x = true /\ In x accA).
+Proof.
+  destruct (MetaOnlyP.step_facts sel accA c P s (lk_inv _ _ _ _ L) Hs) as (popped & Hsplit & S1 & Htop & S2).
+  fold stk1 in Hsplit, S1, Htop.
+  assert (Hin1 : forall x, In x stk1 -> In x P) by (intros x Hx; rewrite Hsplit; apply in_or_app; right; exact Hx).
+  assert (Hmem : forall x, In x stk1 -> st_is_dir x = true /\ In x accA).
+  { intros x Hx. destruct (MetaOnlyP.inv_mem _ _ _ _ (lk_inv _ _ _ _ L) x (Hin1 x Hx)) as (A & _ & B). auto. }
+  pose proof Hs as (Hok & Hlt & Hpar).
+  split; [|split; [|exact Hmem]].
+  - constructor.
+    + apply (MetaOnlyP.inv_step sel accA c P s _ (lk_inv _ _ _ _ L) Hs). left. reflexivity.
+    + intros q Hq. apply in_or_app. apply in_app_or in Hq. destruct Hq as [Hq|Hq]; [left; apply (lk_sub _ _ _ _ L q Hq)|].
+      apply in_app_or in Hq. destruct Hq as [Hq|[<-|[]]]; [left|right; left; reflexivity].
+      apply in_rev in Hq. apply (Hmem q Hq).
+    + intros q x _ [].
+    + intros q Hq Hd Hp. left. apply in_app_or in Hq. destruct Hq as [Hq|[<-|[]]].
+      * destruct (pending_anc q Hq Hd Hp) as [H|H]; apply in_or_app; [left; exact H|right].
+        apply in_or_app. left. apply in_rev. rewrite rev_involutive. exact H.
+      * apply in_or_app. right. apply in_or_app. right. left. reflexivity.
+    + exact lk_par_step.
+    + intros x [].
+  - apply (cvalid_app fedS (rev stk1) [s] fedS eq_refl).
+    + apply cvalid_rev_chain.
+      * apply (MetaOnlyP.chain_app_r popped). rewrite <- Hsplit. apply (MetaOnlyP.inv_chain _ _ _ _ (lk_inv _ _ _ _ L)).
+      * intros x Hx. destruct (Hmem x Hx) as [A B]. split; [apply (MetaOnlyP.inv_okc _ _ _ _ (lk_inv _ _ _ _ L) x B)|exact A].
+      * intros q x Hq Hx. apply (lk_lt _ _ _ _ L q x Hq (Hin1 x Hx)).
+      * (* the bottom of what is replayed is the bottom of the stack: its parent was handed over *)
+        intros x pre E.
+        assert (HxP : In x P) by (apply Hin1; rewrite E; apply in_or_app; right; left; reflexivity).
+        destruct (MetaOnlyP.inv_mem _ _ _ _ (lk_inv _ _ _ _ L) x HxP) as (HxA & _ & _).
+        destruct (lk_par _ _ _ _ L x HxA) as [H|(q & Hq & E1 & E2)]; [left; exact H|right].
+        assert (Hokx : PathP.okc (cp x)) by (apply (MetaOnlyP.inv_okc _ _ _ _ (lk_inv _ _ _ _ L) x HxA)).
+        assert (Hokq : PathP.okc (cp q)) by (apply (MetaOnlyP.inv_okc _ _ _ _ (lk_inv _ _ _ _ L) q Hq)).
+        assert (Hqc : is_prefix (cp q) c).
+        { eapply prefix_trans; [|apply (lk_pre _ _ _ _ L x HxP)]. rewrite E1. apply MetaOnlyP.removelast_prefix. }
+        destruct (lk_anc _ _ _ _ L q Hq E2 Hqc) as [H|H]; [exists q; auto|exfalso].
+        pose proof (MetaOnlyP.removelast_len (cp x) (MetaOnlyP.okc_nonempty _ Hokx)) as Lx.
+        pose proof (MetaOnlyP.removelast_len (cp q) (MetaOnlyP.okc_nonempty _ Hokq)) as Lq.
+        rewrite Hsplit, E, app_assoc in H. apply in_app_or in H. destruct H as [H|[<-|[]]].
+        -- assert (Hch : chain_ok ((popped ++ pre) ++ [x])).
+           { rewrite <- app_assoc, <- E, <- Hsplit. apply (MetaOnlyP.inv_chain _ _ _ _ (lk_inv _ _ _ _ L)). }
+           pose proof (MetaOnlyP.chain_app_prefix (popped ++ pre) [x] Hch q x H (or_introl eq_refl)) as Hp.
+           apply MetaOnlyP.prefix_len in Hp. rewrite E1 in Lq, Hp. lia.
+        -- rewrite <- E1 in Lx. lia.
+    + cbn [MetaOnlyP.cvalid]. split; [|exact I]. split; [exact Hok|]. split.
+      * intros q Hq. apply Hlt. apply in_app_or in Hq. destruct Hq as [Hq|Hq]; [apply (lk_sub _ _ _ _ L q Hq)|].
+        apply in_rev in Hq. apply (Hmem q Hq).
+      * destruct Hpar as [H|(q & Hq & E1 & E2)]; [left; exact H|right]. exists q. split; [|auto].
+        assert (Hp : is_prefix (cp q) (cp s)) by (rewrite E1; apply MetaOnlyP.removelast_prefix).
+        destruct (pending_anc q Hq E2 Hp) as [H|H]; apply in_or_app; [left; exact H|right].
+        apply in_rev. rewrite rev_involutive. exact H.
+Qed.
+
+End Step.
+End Link.
+
+
+(* ================= bookkeeping: what the diff does not touch ================= *)
+Lemma apply_change_keeps fl c idx kind p s st :
+  r_vstk (apply_change fl c idx kind p s st) = r_vstk st
+  /\ r_seen (apply_change fl c idx kind p s st) = r_seen st
+  /\ r_closed (apply_change fl c idx kind p s st) = r_closed st.
+Proof.
+  unfold apply_change. destruct (f_rej fl p); [auto|]. cbv zeta.
+  destruct (negb (live st)); [auto|].
+  destruct (spend st) as [st1|] eqn:Es; [|simpl; auto].
+  destruct (spend_core st st1 Es) as (Ef & (Ev & Ese & Et) & El & Ep & Eae & Efi & Eo & Edt & Ecl & _).
+  cbn [r_fs set_tmps].
+  match goal with |- context [dw_handle ?a ?b ?t ?k ?q ?z] => destruct (dw_handle a b t k q z) as [f' res] end.
+  destruct res as [|async newdir]; [simpl; auto|].
+  destruct newdir, async; simpl; auto;
+    match goal with |- context [blookup ?a ?b] => destruct (blookup a b) end; simpl; auto.
+Qed.
+
+Lemma diff_feed_keeps fl c idx s : forall old st,
+  r_vstk (diff_feed fl c idx s old st) = r_vstk st
+  /\ r_seen (diff_feed fl c idx s old st) = r_seen st
+  /\ r_closed (diff_feed fl c idx s old st) = r_closed st.
+Proof.
+  induction old as [|f1 rest IH]; intros st; cbn [diff_feed].
+  - destruct (apply_change_keeps fl c idx 0 (st_path s) s (set_diff st [] [])) as (A & B & C). auto.
+  - destruct (compare_path (st_path f1) (st_path s)).
+    + destruct (same_file f1 (f_map fl s)); [auto|].
+      match goal with |- context [apply_change fl c idx 1 ?p ?z ?t] =>
+        destruct (apply_change_keeps fl c idx 1 p z t) as (A & B & C) end. auto.
+    + destruct (suppressed (r_rmdir st) (st_path f1)).
+      * destruct (IH (set_diff st rest (r_rmdir st))) as (A & B & C). auto.
+      * destruct (apply_change_keeps fl c idx 2 (st_path f1) f1 (set_diff st rest (rm_prefix_of f1))) as (A & B & C).
+        destruct (live (apply_change fl c idx 2 (st_path f1) f1 (set_diff st rest (rm_prefix_of f1)))); [|auto].
+        destruct (IH (apply_change fl c idx 2 (st_path f1) f1 (set_diff st rest (rm_prefix_of f1)))) as (A' & B' & C').
+        rewrite A', B', C'. auto.
+    + destruct (apply_change_keeps fl c idx 0 (st_path s) s (set_diff st (f1 :: rest) [])) as (A & B & C). auto.
+Qed.
+
+(* ================= the receive loop of a metadata transfer ================= *)
+Section Meta.
+Variables (D root : N) (f0 : fs) (tmps0 : list bytes) (dl merge : bool) (fl : rfilter) (sel : stat -> bool).
+Notation wf := (wf D).
+Notation step := (step D).
+Let c : ctx := {| c_root := root; c_cwd := D |}.
+Let b0 : N := f_next f0.
+Hypothesis W0 : wf f0.
+Hypothesis Hmap_mode : forall s, st_mode (f_map fl s) = st_mode s.
+Hypothesis Hmap_link : forall s, st_linkname (f_map fl s) = st_linkname s.
+Hypothesis Hclosed : forall p q, ok_path p = true -> ok_path q = true ->
+  f_rej fl p = true -> is_prefix (comps p) (comps q) -> f_rej fl q = true.
+Hypothesis tmp_ok : forall t, tmpname tmps0 t -> okname t.
+Hypothesis Hunused : tmp_unused D f0 tmps0.
+Notation cleanp := (clean_path tmps0).
+Notation cp := MetaOnlyP.cp.
+
+(* the invariant of the loop with or without Merge *)
+Definition Inv2 (st : rstate) (acc : list vitem) : Prop :=
+  if merge then MInv D f0 tmps0 fl st acc else NInv D f0 tmps0 fl st acc.
+
+Lemma Inv2_gbase st acc : Inv2 st acc -> GBase D f0 tmps0 st acc.
+Proof. unfold Inv2. destruct merge; intros H; apply H. Qed.
+
+Lemma Inv2_files st acc files next : Inv2 st acc -> Inv2 (set_valid st (r_vstk st) (r_seen st) files next) acc.
+Proof. unfold Inv2. destruct merge; intros H; [apply MInv_files|apply NInv_files]; auto. Qed.
+
+Lemma Inv2_stop st acc o : Inv2 st acc -> o <> Running -> Inv2 (set_out st o) acc.
+Proof.
+  unfold Inv2. destruct merge; intros H Ho.
+  - destruct H as [[G A] Hold]. apply (MInv_stop D f0 tmps0 fl st); auto.
+  - apply NInv_stop; auto.
+Qed.
+
+Lemma Inv2_wait st acc idx : Inv2 st acc -> Inv2 (maybe_wait c dl idx st) acc.
+Proof.
+  unfold Inv2, c. destruct merge; intros H.
+  - destruct H as [G Hold]. split; [eapply maybe_wait_inv; eauto|]. rewrite maybe_wait_old. exact Hold.
+  - eapply maybe_wait_ninv; eauto.
+Qed.
+
+Lemma Inv2_other st acc idx pk : Inv2 st acc -> (forall s, pk <> PStat (Some s)) ->
+  Inv2 (recv_packet fl c dl idx pk st) acc.
+Proof.
+  unfold Inv2, c. destruct merge; intros H Hpk.
+  - eapply recv_packet_inv_other; eauto.
+  - eapply recv_packet_ninv_other; eauto.
+Qed.
+
+Lemma Inv2_dead st acc : GBase D f0 tmps0 st acc -> live st = false -> (merge = true -> r_old st = []) -> Inv2 st acc.
+Proof.
+  unfold Inv2. intros G L Ho. destruct merge.
+  - split; [split; [exact G|intros H; congruence]|auto].
+  - split; [split; [exact G|intros H; congruence]|intros H; congruence].
+Qed.
+
+Lemma Inv2_old st acc : Inv2 st acc -> merge = true -> r_old st = [].
+Proof. unfold Inv2. intros H E. rewrite E in H. apply H. Qed.
+
+(* one entry handed to the walker *)
+Lemma feed_one_inv idx x st acc :
+  Inv2 st acc -> r_closed st = false -> cleanp (st_path x) -> link_ok fl x -> ok_path (st_path x) = true ->
+  spec_ok (map citem_of acc) (citem_of (item_of x)) ->
+  forall sn', hl_step (r_seen st) x = Some sn' ->
+  Inv2 (feed_one fl c idx x st) (acc ++ [item_of x])
+  /\ r_closed (feed_one fl c idx x st) = false
+  /\ r_seen (feed_one fl c idx x st) = sn'.
+Proof.
+  intros M Hcl Hclean Hlk Hok Hspec sn' Eh.
+  pose proof (Inv2_gbase st acc M) as G.
+  assert (Hv : exists v', vstep (r_vstk st) (item_of x) = Some v').
+  { pose proof (vstep_refines (r_vstk st) (item_of x) (g_R D f0 tmps0 st acc G) Hok) as Hr.
+    destruct (vstep (r_vstk st) (item_of x)) as [v'|]; [eauto|]. exfalso.
+    apply (cvstep_complete _ _ _ (g_vinv D f0 tmps0 st acc G) (okitem_names (item_of x) Hok) Hspec). exact Hr. }
+  destruct Hv as [v' Ev].
+  unfold feed_one, ghost_step. rewrite Ev, Eh.
+  set (st1 := set_valid st v' sn' (r_files st) (r_next st)).
+  assert (Hlive1 : live st1 = live st) by reflexivity.
+  unfold Inv2 in *. destruct merge eqn:Em.
+  - destruct (feed_merge D root f0 tmps0 fl Hmap_mode Hmap_link Hclosed tmp_ok idx x st acc v' sn' (r_files st) (r_next st)
+                M Hclean Hlk Ev Eh) as (G1 & Eold & M1).
+    fold st1 in G1, Eold, M1. change {| c_root := root; c_cwd := D |} with c in M1.
+    destruct (live st1) eqn:L1.
+    + split; [exact M1|]. destruct (diff_feed_keeps fl c idx x (r_old st1) st1) as (A & B & C). rewrite B, C. auto.
+    + split; [|auto]. split; [split; [exact G1|intros H; congruence]|exact Eold].
+  - destruct (feed_nomerge D root f0 tmps0 W0 fl Hmap_mode Hmap_link Hclosed tmp_ok Hunused idx x st acc v' sn' (r_files st) (r_next st)
+                M Hclean Hlk Ev Eh) as (G1 & M1).
+    fold st1 in G1, M1. change {| c_root := root; c_cwd := D |} with c in M1.
+    destruct (live st1) eqn:L1.
+    + split; [apply M1; [congruence|exact Hcl]|].
+      destruct (diff_feed_keeps fl c idx x (r_old st1) st1) as (A & B & C). rewrite B, C. auto.
+    + split; [|auto]. split; [split; [exact G1|intros H; congruence]|intros H; congruence].
+Qed.
+
+(* ---- the stat-level and the item-level form of "acceptable after" ---- *)
+Lemma step_ok_spec acc x : MetaOnlyP.step_ok acc x ->
+  spec_ok (map citem_of (map item_of acc)) (citem_of (item_of x)).
+Proof.
+  unfold MetaOnlyP.step_ok, MetaOnlyP.cp. intros (Hok & Hlt & Hpar).
+  split; [cbn; apply MetaOnlyP.okc_nonempty; exact Hok|]. split.
+  - intros q Hq. apply in_map_iff in Hq. destruct Hq as (it & <- & Hit). apply in_map_iff in Hit.
+    destruct Hit as (y & <- & Hy). cbn. apply (Hlt y Hy).
+  - destruct Hpar as [H|(q & Hq & E1 & E2)]; [left; exact H|right].
+    exists (citem_of (item_of q)). split; [apply in_map, in_map; exact Hq|]. cbn. auto.
+Qed.
+
+Lemma spec_step_ok accA s : ok_path (st_path s) = true ->
+  spec_ok (map citem_of (map item_of accA)) (citem_of (item_of s)) -> MetaOnlyP.step_ok accA s.
+Proof.
+  unfold MetaOnlyP.step_ok, MetaOnlyP.cp. intros Hok (_ & Hlt & Hpar). split; [apply ok_path_okc; exact Hok|]. split.
+  - intros q Hq. apply (Hlt (citem_of (item_of q))). apply in_map, in_map. exact Hq.
+  - destruct Hpar as [H|(q & Hq & E1 & _ & E3)]; [left; exact H|right].
+    apply in_map_iff in Hq. destruct Hq as (it & <- & Hit). apply in_map_iff in Hit. destruct Hit as (y & <- & Hy).
+    exists y. cbn in E1, E3. auto.
+Qed.
+
+Lemma cvalid_split acc l1 : forall l2 acc', acc' = acc ->
+  MetaOnlyP.cvalid acc' (l1 ++ l2) -> MetaOnlyP.cvalid acc l1 /\ MetaOnlyP.cvalid (acc ++ l1) l2.
+Proof.
+  revert acc. induction l1 as [|x l1 IH]; intros acc l2 acc' -> H.
+  - rewrite app_nil_r. split; [exact I|exact H].
+  - cbn [app MetaOnlyP.cvalid] in *. destruct H as [Hx H]. destruct (IH (acc ++ [x]) l2 _ eq_refl H) as [A B].
+    split; [split; auto|]. rewrite <- app_assoc in B. exact B.
+Qed.
+
+Lemma okc_ok (p : bytes) : PathP.okc (comps p) -> ok_path p = true.
+Proof. intros H. rewrite <- (joinc_comps p). apply okc_ok_path. exact H. Qed.
+
+Lemma feed_all_app idx l1 l2 st : feed_all fl c idx (l1 ++ l2) st = feed_all fl c idx l2 (feed_all fl c idx l1 st).
+Proof. unfold feed_all. apply fold_left_app. Qed.
+
+(* pending directories handed to the walker, bottom first *)
+Lemma feed_dirs_inv idx : forall ds st fed,
+  Inv2 st (map item_of fed) -> r_closed st = false -> MetaOnlyP.cvalid fed ds ->
+  (forall x, In x ds -> st_is_dir x = true /\ cleanp (st_path x) /\ ok_path (st_path x) = true) ->
+  Inv2 (feed_all fl c idx ds st) (map item_of (fed ++ ds))
+  /\ r_closed (feed_all fl c idx ds st) = false /\ r_seen (feed_all fl c idx ds st) = r_seen st.
+Proof.
+  induction ds as [|x r IH]; intros st fed M Hcl Hv Hds.
+  - rewrite app_nil_r. cbn. auto.
+  - destruct Hv as [Hx Hv]. destruct (Hds x (or_introl eq_refl)) as (Hd & Hc & Hok).
+    assert (Eh : hl_step (r_seen st) x = Some (r_seen st)) by (unfold hl_step; rewrite Hd; reflexivity).
+    assert (Hlk : link_ok fl x).
+    { intros Hhb. exfalso. unfold hardlink_branch in Hhb. unfold st_is_dir in Hd. rewrite Hd in Hhb. discriminate. }
+    destruct (feed_one_inv idx x st (map item_of fed) M Hcl Hc Hlk Hok (step_ok_spec fed x Hx) _ Eh) as (M1 & C1 & S1).
+    assert (E : map item_of fed ++ [item_of x] = map item_of (fed ++ [x])) by (rewrite map_app; reflexivity).
+    rewrite E in M1.
+    assert (Hds' : forall y, In y r -> st_is_dir y = true /\ cleanp (st_path y) /\ ok_path (st_path y) = true)
+      by (intros y Hy; apply Hds; right; exact Hy).
+    destruct (IH _ (fed ++ [x]) M1 C1 Hv Hds') as (M2 & C2 & S2).
+    rewrite <- app_assoc in M2. cbn [app] in M2.
+    change (feed_all fl c idx (x :: r) st) with (feed_all fl c idx r (feed_one fl c idx x st)).
+    split; [exact M2|]. split; [exact C2|]. rewrite S2, S1. reflexivity.
+Qed.
+
+(* ---- the invariant of the loop ---- *)
+Definition MI (m : mstate) : Prop := exists fedS,
+  Inv2 (m_st m) (map item_of fedS)
+  /\ (running (m_st m) = true ->
+      exists accA cpos, R (m_vstk m) /\ Inv (map ce (m_vstk m)) (map citem_of (map item_of accA))
+        /\ Link sel accA fedS (m_stk m) cpos
+        /\ (forall q, In q accA -> cleanp (st_path q))).
+
+Lemma running_set_out st o : o <> Running -> running (set_out st o) = false.
+Proof. intros H. unfold running. cbn. destruct o; congruence. Qed.
+
+Lemma mrecv_stat_inv idx s m : MI m -> running (m_st m) = true -> cleanp (st_path s) -> link_ok fl s ->
+  MI (mrecv_stat fl c sel idx s m).
+Proof.
+  intros (fedS & M & Hrun') Hrun Hcl Hlk. destruct (Hrun' Hrun) as (accA & cpos & HR & HV & HL & Hclean).
+  unfold mrecv_stat. set (st := m_st m) in *.
+  destruct (is_listing s).
+  { exists fedS. cbn [m_st mset]. split; [apply Inv2_files; exact M|]. intros _. exists accA, cpos. cbn [m_vstk m_stk mset]. auto. }
+  set (files := if sel s && mode_is_regular (st_mode s) then bset (st_path s) (r_next st) (r_files st) else r_files st).
+  set (st0 := set_valid st (r_vstk st) (r_seen st) files (r_next st + 1)).
+  assert (M0 : Inv2 st0 (map item_of fedS)) by (apply Inv2_files; exact M).
+  assert (Hfail : forall v stk buf k, k <> Running ->
+            MI {| m_st := set_out st0 k; m_vstk := v; m_stk := stk; m_buf := buf |}).
+  { intros v stk buf k Hk. exists fedS. cbn [m_st]. split; [apply Inv2_stop; auto|].
+    intros Hr. rewrite running_set_out in Hr; [discriminate|exact Hk]. }
+  destruct (vstep (m_vstk m) (item_of s)) as [v'|] eqn:Ev; [|apply Hfail; discriminate].
+  pose proof (vstep_ok_path _ _ _ Ev) as Hok. change (vpath (item_of s)) with (st_path s) in Hok.
+  pose proof (vstep_refines (m_vstk m) (item_of s) HR Hok) as Hr. rewrite Ev in Hr. destruct Hr as [Hcv HR'].
+  destruct (cvstep_sound _ _ _ _ HV (okitem_names (item_of s) Hok) Hcv) as [Hspec HV'].
+  pose proof (spec_step_ok accA s Hok Hspec) as Hstep.
+  assert (HV2 : Inv (map ce v') (map citem_of (map item_of (accA ++ [s])))) by (rewrite !map_app; exact HV').
+  assert (Hclean' : forall q, In q (accA ++ [s]) -> cleanp (st_path q)).
+  { intros q Hq. apply in_app_or in Hq. destruct Hq as [Hq|[<-|[]]]; auto. }
+  set (stk1 := MetaOnly.mpop (dir (st_path s)) (m_stk m)).
+  destruct (sel s) eqn:Esel.
+  - (* handed to the walker, after its pending parents *)
+    destruct (hl_step (r_seen st) s) as [sn'|] eqn:Eh; [|apply Hfail; discriminate].
+    destruct (link_fwd sel accA fedS (m_stk m) cpos s HL Hstep) as (HL' & Hcv' & Hmem). fold stk1 in HL', Hcv', Hmem.
+    destruct (is_dead st0 && negb (r_closed st0)); [apply Hfail; discriminate|].
+    destruct (r_closed st0) eqn:Ecl; [apply Hfail; discriminate|].
+    destruct (cvalid_split fedS (rev stk1) [s] fedS eq_refl Hcv') as [Hv1 [Hv2 _]].
+    assert (Hdirs : forall x, In x (rev stk1) -> st_is_dir x = true /\ cleanp (st_path x) /\ ok_path (st_path x) = true).
+    { intros x Hx. apply in_rev in Hx. destruct (Hmem x Hx) as [A B]. split; [exact A|]. split; [apply Hclean; exact B|].
+      apply okc_ok. apply (MetaOnlyP.inv_okc _ _ _ _ (lk_inv _ _ _ _ _ HL) x B). }
+    destruct (feed_dirs_inv idx (rev stk1) st0 fedS M0 Ecl Hv1 Hdirs) as (M1 & C1 & S1).
+    assert (Eh' : hl_step (r_seen (feed_all fl c idx (rev stk1) st0)) s = Some sn') by (rewrite S1; exact Eh).
+    destruct (feed_one_inv idx s _ (map item_of (fedS ++ rev stk1)) M1 C1 Hcl Hlk Hok (step_ok_spec _ s Hv2) sn' Eh') as (M2 & C2 & S2).
+    exists (fedS ++ rev stk1 ++ [s]). cbn [m_st m_vstk m_stk]. rewrite feed_all_app. split.
+    + assert (E : map item_of (fedS ++ rev stk1) ++ [item_of s] = map item_of (fedS ++ rev stk1 ++ [s])).
+      { rewrite app_assoc, (map_app item_of (fedS ++ rev stk1) [s]). reflexivity. }
+      rewrite <- E. exact M2.
+    + intros _. exists (accA ++ [s]), (cp s). auto.
+  - (* only recorded *)
+    exists fedS. cbn [m_st m_vstk m_stk]. split; [exact M0|].
+    intros _. exists (accA ++ [s]), (cp s). split; [exact HR'|]. split; [exact HV2|]. split; [|exact Hclean'].
+    apply (link_meta sel accA fedS (m_stk m) cpos s HL Hstep Esel).
+Qed.
+
+Lemma mrecv_packet_inv idx pk m : MI m -> clean_packet tmps0 fl pk -> MI (mrecv_packet fl c dl sel idx pk m).
+Proof.
+  intros HM Hc. unfold mrecv_packet. destruct (running (m_st m)) eqn:Hrun; cbn [negb]; [|exact HM].
+  destruct pk as [[s|]|id d| | |].
+  - destruct Hc as [Hcl Hlk]. destruct (mrecv_stat_inv idx s m HM Hrun Hcl Hlk) as (fedS & M & Hr).
+    exists fedS. cbn [m_st mset]. split; [apply Inv2_wait; exact M|].
+    intros Hrun2. cbn [m_vstk m_stk mset]. apply Hr.
+    unfold maybe_wait in Hrun2. revert Hrun2.
+    destruct ((running (m_st (mrecv_stat fl c sel idx s m)) || match r_out (m_st (mrecv_stat fl c sel idx s m)) with Drained _ => true | _ => false end)
+              && negb (is_dead (m_st (mrecv_stat fl c sel idx s m)))); [|auto].
+    destruct (r_closed (m_st (mrecv_stat fl c sel idx s m)) && negb (r_waited (m_st (mrecv_stat fl c sel idx s m)))); [|auto].
+    destruct (r_asyncerr (m_st (mrecv_stat fl c sel idx s m))); [auto|].
+    destruct (is_nil (r_pipes (m_st (mrecv_stat fl c sel idx s m)))); [|auto].
+    destruct (spend (m_st (mrecv_stat fl c sel idx s m))) as [st1|] eqn:Es; [|intros H; rewrite running_set_out in H; [discriminate|discriminate]].
+    destruct (spend_core _ _ Es) as (_ & _ & _ & _ & _ & _ & _ & _ & _ & _ & _ & _ & Eout).
+    unfold running. cbn. rewrite Eout. auto.
+  - destruct HM as (fedS & M & Hr). exists fedS. cbn [m_st mset].
+    split; [apply Inv2_other; [exact M|intros s; discriminate]|]. intros _. cbn [m_vstk m_stk mset]. apply Hr. exact Hrun.
+  - destruct HM as (fedS & M & Hr). exists fedS. cbn [m_st mset].
+    split; [apply Inv2_other; [exact M|intros s; discriminate]|]. intros _. cbn [m_vstk m_stk mset]. apply Hr. exact Hrun.
+  - destruct HM as (fedS & M & Hr). exists fedS. cbn [m_st mset].
+    split; [apply Inv2_other; [exact M|intros s; discriminate]|]. intros _. cbn [m_vstk m_stk mset]. apply Hr. exact Hrun.
+  - destruct HM as (fedS & M & Hr). exists fedS. cbn [m_st mset].
+    split; [apply Inv2_other; [exact M|intros s; discriminate]|]. intros _. cbn [m_vstk m_stk mset]. apply Hr. exact Hrun.
+  - destruct HM as (fedS & M & Hr). exists fedS. cbn [m_st mset].
+    split; [apply Inv2_other; [exact M|intros s; discriminate]|]. intros _. cbn [m_vstk m_stk mset]. apply Hr. exact Hrun.
+Qed.
+
+Lemma mrecv_loop_inv : forall pks idx m, MI m -> Forall (clean_packet tmps0 fl) pks ->
+  MI (mrecv_loop fl c dl sel idx pks m).
+Proof.
+  induction pks as [|pk pks IH]; intros idx m HM Hc; cbn [mrecv_loop]; [exact HM|].
+  inversion Hc; subst. apply IH; auto. apply mrecv_packet_inv; auto.
+Qed.
+
+Lemma MI_init budget :
+  MI {| m_st := rstate_init f0 D merge tmps0 budget; m_vstk := vinit; m_stk := []; m_buf := [] |}.
+Proof.
+  exists []. cbn [m_st m_vstk m_stk map]. split.
+  - unfold Inv2. destruct merge; [apply MInv_init; auto|apply NInv_init; auto].
+  - intros _. exists [], []. split; [constructor; [left; reflexivity|constructor]|]. split; [apply inv_init|].
+    split; [apply link_init|intros q []].
+Qed.
+
+Theorem recv_meta_step pks budget :
+  Forall (clean_packet tmps0 fl) pks ->
+  step TAll b0 f0 (r_fs (recv_run_opt f0 root D dl merge (Some sel) fl tmps0 pks budget)).
+Proof.
+  intros Hc. unfold recv_run_opt. fold c.
+  destruct (mrecv_loop_inv pks 0 _ (MI_init budget) Hc) as (fedS & M & _).
+  set (m := mrecv_loop fl c dl sel 0 pks _) in *.
+  pose proof (Inv2_gbase _ _ M) as G.
+  apply (step_trans D TAll b0 f0 (r_fs (m_st m))); [apply G|].
+  apply (epilogue_step D root b0). 
+  - apply (g_wf D f0 tmps0 _ _ G).
+  - apply (g_next D f0 tmps0 _ _ G).
+Qed.
+
+End Meta.
